@@ -324,12 +324,18 @@ class SyntheticBranch(SyntheticBlock):
 
         old_branch_value_table = self.branch_value_table
         new_branch_value_table = {}
-        for target in self._jump_targets:
+        for idx, target in enumerate(self._jump_targets):
             if target not in jump_targets:
-                # ASSUMPTION: only one jump_target is being updated
-                diff = set(jump_targets).difference(self._jump_targets)
-                assert len(diff) == 1
-                new_target = next(iter(diff))
+                if len(jump_targets) == len(self._jump_targets):
+                    # Same number of targets: they are given in the order of
+                    # their intended original replacements, so several can
+                    # be replaced at once, position by position.
+                    new_target = jump_targets[idx]
+                else:
+                    # ASSUMPTION: only one jump_target is being updated
+                    diff = set(jump_targets).difference(self._jump_targets)
+                    assert len(diff) == 1
+                    new_target = next(iter(diff))
                 for k, v in old_branch_value_table.items():
                     if v == target:
                         new_branch_value_table[k] = new_target
